@@ -61,6 +61,7 @@ def bfs(model, spec, seed=0, deadline=None):
     maxdepth = 0
     capped_depth = capped_states = capped_time = False
     cyc0 = cur0.cycles
+    expanded = 0
     while frontier:
         i = frontier.popleft()
         d = depths[i]
@@ -92,7 +93,8 @@ def bfs(model, spec, seed=0, deadline=None):
                 if d + 1 > maxdepth: maxdepth = d + 1
         if len(parents) >= spec.max_states:
             capped_states = True; break
-        if deadline and (transitions & 0x3FF) == 0 and time.time() > deadline:
+        expanded += 1
+        if deadline and (expanded & 0x3F) == 0 and time.time() > deadline:
             capped_time = True; break
     if capped_depth: caps.append(f"depth bound {spec.max_depth} reached (all states at smaller depth fully expanded)")
     if capped_states: caps.append(f"state cap {spec.max_states} hit; {len(frontier)} frontier states unexpanded")
